@@ -602,7 +602,7 @@ where
     };
     let dg = state_digest(a);
     let mut built = json!({"run": run, "ev": "Built", "type": meta.ty, "cfg": meta.cfg, "det": meta.det, "sup": meta.sup,
-        "prec": meta.prec, "hasEq": eq.is_some(), "n": d.x.len(), "p": d.x[0].len(),
+        "prec": meta.prec, "hasEq": eq.is_some(), "n": d.x.len(), "p": d.x.first().map(|r| r.len()).unwrap_or(0),
         "xd": dig_rows(&d.x), "yd": dig_rows(&[d.y.clone()]),
         "obs": obs_value(&base, s), "digok": dg.is_some(), "dig": dig_json(dg.unwrap_or(0))});
     // nesting depth of the object's JSON form (an exact projection of the serialised shape)
@@ -1367,6 +1367,29 @@ fn gen_models(path: &str) {
     for (nr, nc) in ladder {
         let rows: Vec<Vec<f64>> = (0..nr).map(|_| (0..nc).map(|_| entry(&mut r)).collect()).collect();
         dm_history(cx, &rows, "ladder ", true, nr % 2 == 1);
+    }
+    // EMPTY shapes ("any shape"): 0x0, 0x3, 4x0, built with the public constructors
+    fn dm_empty<T: RealNumber + Serialize + DeserializeOwned + std::fmt::Debug>(cx: &mut Cx, nr: usize, nc: usize, prec: u32, via_zeros: bool) {
+        let mk = |r: usize, c: usize| -> DenseMatrix<T> { if via_zeros { DenseMatrix::zeros(r, c) } else { DenseMatrix::from_array(r, c, &[]) } };
+        let rows = |r: usize, c: usize| -> Vec<Vec<f64>> { (0..r).map(|_| vec![0.0; c]).collect() };
+        let d = Data { kind: Kind::Blob, x: rows(nr, nc), y: vec![], q: vec![] };
+        let (or, oc) = if nr == nc { (nr, nc + 2) } else { (nc, nr) };
+        let alts = vec![
+            Alt { role: "refit", how: "same", data: d.clone(), obj: guard(|| Ok(mk(nr, nc))) },
+            Alt { role: "other", how: "indep", data: Data { kind: Kind::Blob, x: rows(or, oc), y: vec![], q: vec![] }, obj: guard(|| Ok(mk(or, oc))) },
+        ];
+        let meta = Meta { ty: "DenseMatrix", cfg: format!("f{} empty {}x{}{}", prec, nr, nc, if via_zeros { " zeros" } else { " from_array" }),
+                          det: true, sup: false, prec, jsonperm: true };
+        match guard(|| mk(nr, nc)) {
+            Ok(a) => history(cx, &meta, &a, &d, alts, &|o: &DenseMatrix<T>, _d: &Data| Ok(mat_obs(o)), Some(|a, b| a == b)),
+            Err(_) => cx.skipped += 1,
+        }
+    }
+    for (nr, nc) in [(0usize, 0usize), (0, 3), (4, 0)] {
+        for via_zeros in [true, false] {
+            dm_empty::<f64>(cx, nr, nc, 64, via_zeros);
+            dm_empty::<f32>(cx, nr, nc, 32, via_zeros);
+        }
     }
     // values that are special in binary floating point (all FINITE): signed zeros, near-overflow,
     // subnormals, neighbours of 1
